@@ -37,7 +37,7 @@ def _is_super_call(n, names=None):
         and (names is None or n.func.attr in names)
 
 
-def _events(fd, cls, shadow):
+def _events(fd, cls, shadow, depth=0):
     """per path: ordered events ('L', node) list write, ('S', node) shadow write, ('D', node, method) delegated to
     another overriding mutator, ('R', node, what, arg) operation that can raise, ('C', node) coercion"""
     own_mut = {m for m in cls.methods if m in LIST_MUT}
@@ -61,6 +61,12 @@ def _events(fd, cls, shadow):
                     evs.append(('D', n, n.func.attr))
                 elif norm(recv) == 'self' and ('coerce' in n.func.attr):
                     evs.append(('C', n, n.func.attr))
+                elif norm(recv) == 'self' and n.func.attr in cls.methods and n.func.attr.startswith('_') \
+                        and not n.func.attr.endswith('__') and depth < 3:
+                    # private helper of the class: its effects happen here (straight-line approximation)
+                    hfd = cls.methods[n.func.attr][-1]
+                    for hp in _events(hfd, cls, shadow, depth + 1)[:1]:
+                        evs.extend(ev for ev in hp if ev[0] in ('L', 'S', 'R', 'C'))
             elif isinstance(n, ast.Subscript) and isinstance(n.ctx, ast.Load) and norm(n.value) in ('self', 'self.%s' % shadow):
                 if not (isinstance(n.slice, ast.Slice)):
                     evs.append(('R', n, 'subscript', n.slice))
@@ -253,6 +259,25 @@ def r18_d(ctx):
         if isinstance(n, ast.Return) and isinstance(n.value, ast.Name):
             plain = True
     sup = any(_is_super_call(n, {'__getitem__'}) for n in ast.walk(fd.node))
+    # every result is list.__getitem__(key) on the caller's key, as it is or wrapped in an argument list
+    kp = fd.params()[1] if len(fd.params()) > 1 else None
+    derived = {x.targets[0].id for x in ast.walk(fd.node) if isinstance(x, ast.Assign) and len(x.targets) == 1
+               and isinstance(x.targets[0], ast.Name) and _is_super_call(x.value, {'__getitem__'})
+               and len(x.value.args) == 1 and isinstance(x.value.args[0], ast.Name) and x.value.args[0].id == kp}
+
+    def from_list(e):
+        if isinstance(e, ast.Name):
+            return e.id in derived
+        if _is_super_call(e, {'__getitem__'}):
+            return len(e.args) == 1 and isinstance(e.args[0], ast.Name) and e.args[0].id == kp
+        if isinstance(e, ast.Call) and norm(e.func) in ('TexArgs', 'type(self)', 'self.__class__') and len(e.args) == 1:
+            return from_list(e.args[0])
+        return False
+    for n in ast.walk(fd.node):
+        if isinstance(n, ast.Return) and (n.value is None or not from_list(n.value)):
+            raise AnalysisError('TexArgs.__getitem__: the result `%s` (data.py:%d) is not list.__getitem__ applied to the '
+                                'caller\'s key; a re-implementation of index/slice semantics is outside the decidable '
+                                'subset of R18.d' % (norm(n.value)[:50] if n.value is not None else 'None', n.lineno))
     ok = wraps and plain and sup
     rr.ob(ok, {'wraps_list_results': wraps, 'returns_items_unchanged': plain, 'reads_through_list': sup})
     if not ok:
@@ -297,6 +322,51 @@ def r18_e(ctx):
             rr.fail(Finding('R18.e', 'data', sfd.qual, '%s.__str__ does not print str(self.args)' % cname,
                             'the owning %s does not print its argument list through the list\'s serialiser' % cname,
                             line=sfd.node.lineno))
+    return rr
+
+
+def r18_g(ctx):
+    """the list proper is never re-derived from the shadow sequence"""
+    cls = _cls(ctx)
+    shadow = _shadow_field(cls)
+    rr = RuleResult('R18.g', 'the list proper is the source of truth: it is written by list\'s own operation on the '
+                    'caller\'s arguments and never rebuilt from the shadow sequence (whose positions are found by an '
+                    'equality search and therefore need not be in list order among equal groups); reverse and clear act '
+                    'on the list proper through list.reverse / list.clear', floor=7)
+    by_eq = [n for fds in cls.methods.values() for n in ast.walk(fds[-1].node)
+             if isinstance(n, ast.Call) and isinstance(n.func, ast.Attribute) and n.func.attr == 'index'
+             and norm(n.func.value) == 'self.%s' % shadow]
+    for op in LIST_OPS:
+        fds = cls.methods.get(op)
+        if not fds:
+            continue
+        fd = fds[-1]
+        bad = []
+        same = False
+        for p in _events(fd, cls, shadow):
+            for ev in p:
+                if ev[0] != 'L':
+                    continue
+                if ev[2] == op:
+                    same = True
+                for a in list(ev[1].args) + [k.value for k in ev[1].keywords]:
+                    if any(isinstance(x, ast.Attribute) and x.attr == shadow and norm(x.value) == 'self' for x in ast.walk(a)):
+                        bad.append(ev[1])
+        deleg = any(ev[0] == 'D' for p in _events(fd, cls, shadow) for ev in p)
+        ok = not (bad and by_eq)
+        if op in ('reverse', 'clear') and not same and not deleg:
+            ok = False
+        rr.ob(ok, {'operation': op, 'list_written_by_same_named_list_operation': same, 'delegates': deleg,
+                   'list_writes_reading_the_shadow': [norm(b)[:50] for b in bad]})
+        if not ok:
+            node = bad[0] if bad else fd.node.name
+            rr.fail(Finding('R18.g', 'data', fd.qual, node if bad else 'TexArgs.%s: no list.%s on the list proper' % (op, op),
+                            'TexArgs.%s %s: the order of the argument list then follows the shadow sequence, in which an '
+                            'inserted group is placed by an equality search (%s) -- with groups of identical text the list '
+                            'no longer behaves like a Python list' % (
+                                op, 'rebuilds the list proper from the shadow sequence' if bad else
+                                'does not apply list.%s to the list proper' % op,
+                                norm(by_eq[0])[:40] if by_eq else 'n/a'), line=fd.node.lineno))
     return rr
 
 
